@@ -314,7 +314,7 @@ def _worker(args):
 
 def _dump_nondeterminism(prop, i, case, stape, ctx, ctx2):
     try:
-        path = os.path.join(VERIF, "replays", f"{prop}-nondeterminism-{i}.json")
+        path = os.path.join(replay_dir(), f"{prop}-nondeterminism-{i}.json")
         with open(path, "w") as f:
             la, lb = ctx.log.lines, ctx2.log.lines
             i = next((j for j, (x, y) in enumerate(zip(la, lb)) if x != y), min(len(la), len(lb)))
@@ -332,15 +332,36 @@ def _dump_nondeterminism(prop, i, case, stape, ctx, ctx2):
 def _fails(check, prop, known, case, tape_rec, cls, tier):
     """Does (case, tape) fail with the same verdict class and no known signature?"""
     try:
-        t = Tape(replay=tape_rec)
-        verdict, ctx = execute_one(check, case, t, tier, limit_s=60)
+        if getattr(check, "PRISTINE_REPLAY", False):
+            r = check.pristine_execute(case, tape_rec, tier)
+            verdict = r["verdict"]
+            ctx = _ReplayCtx(r["lines"], r["digest"])
+            rec = r["rec"]
+        else:
+            t = Tape(replay=tape_rec)
+            verdict, ctx = execute_one(check, case, t, tier, limit_s=60)
+            rec = t.rec
     except Exception:  # noqa: BLE001
         return None
     if verdict is None or verdict["cls"] != cls:
         return None
     if match_known(known, prop, verdict["cls"], verdict["message"], case, verdict["details"]) is not None:
         return None
-    return verdict, ctx, t.rec
+    return verdict, ctx, rec
+
+
+class _ReplayCtx:
+    """Event log of a run executed in another process."""
+
+    class _L:
+        def __init__(self, lines, dg):
+            self.lines, self._d = lines, dg
+
+        def digest(self):
+            return self._d
+
+    def __init__(self, lines, dg):
+        self.log = self._L(lines, dg)
 
 
 def shrink(check, prop, viol, tier, budget_s=120.0, max_tries=300):
@@ -463,9 +484,14 @@ def versions():
     return out
 
 
+def replay_dir():
+    d = os.environ.get("SIMFLOX_REPLAY_DIR") or os.environ.get("SIMFLOX_EVIDENCE_DIR") or os.path.join(VERIF, "replays")
+    os.makedirs(d, exist_ok=True)
+    return d
+
+
 def write_replay(prop, verif_seed, run_index, tier, v, minimised: bool):
-    os.makedirs(os.path.join(VERIF, "replays"), exist_ok=True)
-    path = os.path.join(VERIF, "replays", f"{prop}-{verif_seed}-{run_index}.json")
+    path = os.path.join(replay_dir(), f"{prop}-{verif_seed}-{run_index}.json")
     doc = {
         "property": prop,
         "verif_seed": verif_seed,
@@ -490,7 +516,14 @@ def write_replay(prop, verif_seed, run_index, tier, v, minimised: bool):
 def replay_file(check, prop, path, tier=None) -> int:
     doc = json.load(open(path))
     tier = tier or doc.get("tier", "quick")
-    verdict, ctx = execute_one(check, doc["case"], Tape(replay=doc["tape"]), tier)
+    w = getattr(check, "warmup", None)
+    if w:
+        w()  # e.g. C14's pristine-process zygote
+    if getattr(check, "PRISTINE_REPLAY", False):
+        r = check.pristine_execute(doc["case"], doc["tape"], tier)
+        verdict, ctx = r["verdict"], _ReplayCtx(r["lines"], r["digest"])
+    else:
+        verdict, ctx = execute_one(check, doc["case"], Tape(replay=doc["tape"]), tier)
     if verdict is None:
         print(f"replay of {path}: no violation (property held on this case)")
         return 0
@@ -623,7 +656,7 @@ def run_check(check_name: str, tier: str, verif_seed: int, budget_s: float | Non
                     tri[k]["n"] += v["n"]
                 else:
                     tri[k] = v
-        with open(os.path.join(VERIF, "replays", f"{prop}-triage.json"), "w") as f:
+        with open(os.path.join(replay_dir(), f"{prop}-triage.json"), "w") as f:
             json.dump(tri, f, indent=1)
         for k, v in sorted(tri.items(), key=lambda kv: -kv[1]["n"]):
             print(f"TRIAGE n={v['n']:5d} idx={v['run_index']} {k}")
